@@ -324,6 +324,7 @@ def run_case(case, ctx):
             check_state(ctx, desc, Path(st_["dir"]), snap.versions, committed,
                         st_["started"], st_["label"], algos, cache=cache)
             ctx.count("states")
+            ctx.evaluated()
             ctx.label("at:" + st_["label"])
             if key not in (pre, post):
                 ctx.nontrivial(key)
@@ -342,6 +343,7 @@ def run_case(case, ctx):
                         sj["started"], f"{si['label']} -> {sj['label']}",
                         algos, list_dir=Path(sj["dir"]), cache=cache)
             ctx.count("slow_reader_pairs")
+            ctx.evaluated()
         ctx.count("boundaries", snap.boundary)
         ctx.label("fmt=" + desc["fmt"],
                   "crash=" + case["crash"]["k"],
@@ -473,6 +475,7 @@ def run_killcheck(case, ctx):
                     f"instrument: directory after SIGKILL at boundary {b} "
                     f"differs from the snapshot: {diff}")
             ctx.count("kill_points_validated")
+            ctx.evaluated()
             ctx.nontrivial(["kill", desc["fmt"], case["crash"]["k"], b, nb])
         ctx.label("killcheck", "fmt=" + desc["fmt"])
     finally:
